@@ -96,3 +96,14 @@ func (r *Repository) VerifOnDisk() bool {
 	_, ok := r.Factory.(crlstore.LevelDbStoreFactory)
 	return ok
 }
+
+// SetSignedBy: the list verifies exactly under the key with this number
+func (c *VerifCRL) SetSignedBy(k int) { c.signedBy = k }
+
+// VerifCAWithKey: a CA / CRL-signer certificate carrying key number k
+func VerifCAWithKey(k int) *x509.Certificate {
+	ca := &x509.Certificate{}
+	ca.Raw = crlstore.VerifReg(ca)
+	certKey[ca] = k
+	return ca
+}
